@@ -178,7 +178,9 @@ func Close(ch any, site string) {
 	t.op = op{kind: opResume, site: site}
 	s.block(t)
 	rv.Close() // panics like the native close on nil / closed channels
-	s.chanState(ch).closed = true
+	st := s.chanState(ch)
+	st.closed = true
+	s.hbRelease(&st.vc)
 }
 
 // MarkClosed closes ch from scheduler or harness context without a scheduling point.
@@ -198,6 +200,17 @@ func MarkClosed(ch any) {
 	}
 	rv.Close()
 	st.closed = true
+	s.hbRelease(&st.vc)
+}
+
+// EnvSend records the happens-before edge of a send performed natively from scheduler context (tickers).
+func EnvSend(ch any) {
+	s := S
+	if !s.racesOn() {
+		return
+	}
+	st := s.chanState(ch)
+	s.hbRelease(&st.vc)
 }
 
 // IsClosed reports whether ch was closed through the scheduler.
